@@ -73,8 +73,13 @@ def c03a(tree, ob, meth):
     if not (isinstance(strict, ast.Constant) and strict.value is False):
         ob.violate(SEC, fd.qual, src(f), 'unknown header attributes are tolerated when decoding', f)
     sets = [n for n in walk_local(fd.func) if isinstance(n, ast.Assign) and src(n.targets[0]) == mobj + '.external_aad']
-    s = one(sets, 'external_aad assignment in decode_msg', ob)
-    if pm('self.get_external_aad()', s.value) is None or not fd.cfg.must_pass(fd.cfg.entry, fd.node(r), {fd.node(s)})[0]:
+    if not sets:
+        ob.violate(SEC, fd.qual, mobj + '.external_aad = self.get_external_aad()', 'the verifier does not bind the external AAD at all: context changes go undetected', r)
+        sets = [r]
+    s = sets[-1]
+    if not isinstance(s, ast.Assign):
+        pass
+    elif pm('self.get_external_aad()', s.value) is None or not fd.cfg.must_pass(fd.cfg.entry, fd.node(r), {fd.node(s)})[0]:
         ob.violate(SEC, fd.qual, src(s), 'the verifier does not bind the same external AAD', s)
     else:
         ob.site(SEC, s, 'decode_msg sets external_aad = get_external_aad()')
